@@ -2,7 +2,7 @@
    inputs to this function (extracted to OCaml) and to the JAX implementation. *)
 From Coq Require Import ZArith QArith Qcanon List Bool.
 From EXV Require Import Base.Scalar Base.FieldLemmas Base.Cplx Exec.Codec.
-From EXV Require Import Utils.Rollout Gen.ETDRK Gen.Guards Spectral.Symbols Gen.GenericUtils.
+From EXV Require Import Utils.Rollout Gen.ETDRK Gen.Guards Spectral.Symbols Gen.GenericUtils Steppers.Linear.
 Import ListNotations.
 Local Open Scope Z_scope.
 
@@ -166,6 +166,13 @@ Definition run_sym (a : list Q) : list Q :=
     | _ => poly_sym CQ (crs p) d
     end ].
 
+(* wave mode: s c rho dt Ep(re,im) Em(re,im) is_dc h(re,im) v(re,im) *)
+Definition run_wave (a : list Q) : list Q :=
+  let g i := cr (getq a i) in
+  let cx i := mkcx (qqc (getq a i)) (qqc (getq a (S i))) : CQ in
+  let r := wave_mode CQ ciQ (g 0%nat) (g 1%nat) (g 2%nat) (g 3%nat) (cx 4%nat) (cx 6%nat) (qb (getq a 8)) (cx 9%nat) (cx 11%nat) in
+  put_cx [fst r; snd r].
+
 Definition qcs (l : list Q) : list QcOps := map qqc l.
 Definition unqcs (l : list QcOps) : list Q := map qcq l.
 (* args: fid x y [z] payload...  (scalars first: L dt  or  D N [M]) *)
@@ -200,7 +207,7 @@ Definition run (id : Z) (a : list Q) : list Q :=
   | 14 => run_c14 sub a
   | 2 => run_c02 sub a
   | 20 => run_c20 sub a
-  | 1 => match sub with 1 => run_sym a | _ => [] end
+  | 1 => match sub with 1 => run_sym a | 2 => run_wave a | _ => [] end
   | 13 => match sub with 1 => run_conv a | _ => [] end
   | _ => []
   end.
